@@ -43,7 +43,17 @@ var solvers = []solverSpec{
 	{"cvc5", func(f string, t int) []string {
 		return []string{"cvc5", "--strings-exp", "--produce-models", "--seed=1", fmt.Sprintf("--tlimit=%d", t*1000), f}
 	}},
+	{"z3/seed0", func(f string, t int) []string { return []string{"z3", fmt.Sprintf("-T:%d", t), "smt.random_seed=0", f} }},
 }
+
+// retrySolvers: the second attempt at an obligation nobody decided in time. Quantifier instantiation is sensitive to the
+// random seed (a query one seed decides in half a second can time out with another), so the retry runs other seeds
+// next to the first set. All seeds are fixed: a run is reproducible.
+var retrySolvers = append(append([]solverSpec{}, solvers...),
+	solverSpec{"z3/seed7", func(f string, t int) []string { return []string{"z3", fmt.Sprintf("-T:%d", t), "smt.random_seed=7", f} }},
+	solverSpec{"z3-new/seed0", func(f string, t int) []string { return []string{"z3-new", fmt.Sprintf("-T:%d", t), "smt.random_seed=0", f} }},
+	solverSpec{"z3-new/seed7", func(f string, t int) []string { return []string{"z3-new", fmt.Sprintf("-T:%d", t), "smt.random_seed=7", f} }},
+)
 
 func runSolver(ctx context.Context, s solverSpec, file string, timeoutS int) SolverResult {
 	t0 := time.Now()
@@ -79,6 +89,10 @@ func runSolver(ctx context.Context, s solverSpec, file string, timeoutS int) Sol
 
 // Discharge runs the solvers on one script. race: first definitive answer wins; otherwise all run and must agree.
 func discharge(file string, timeoutS int, race bool) (status, solver string, t float64, all []SolverResult, disagree bool) {
+	return dischargeWith(solvers, file, timeoutS, race)
+}
+
+func dischargeWith(solvers []solverSpec, file string, timeoutS int, race bool) (status, solver string, t float64, all []SolverResult, disagree bool) {
 	ctx, cancel := context.WithCancel(context.Background())
 	defer cancel()
 	ch := make(chan SolverResult, len(solvers))
@@ -184,9 +198,9 @@ func DischargeAll(obls []*Obligation, covers []*Cover, o DischargeOpts) (res []*
 				time.Sleep(500 * time.Millisecond)
 				st, solver, t, all, dis = discharge(j.r.File, limit, o.Race)
 			}
-			if (st == "timeout" || st == "unknown") && o.Race && j.r.Cover == nil && !o.NoRetry && !known {
+			if (st == "timeout" || st == "unknown") && j.r.Cover == nil && !o.NoRetry && !known {
 				// one retry with a longer limit before reporting
-				st, solver, t, all, dis = discharge(j.r.File, 3*o.TimeoutS, true)
+				st, solver, t, all, dis = dischargeWith(retrySolvers, j.r.File, retryLimit(o), true)
 			}
 			j.r.Solver, j.r.Time, j.r.All, j.r.Disagree = solver, t, all, dis
 			if j.r.Cover != nil {
@@ -221,4 +235,11 @@ func sanitizeFile(s string) string {
 		s = s[:150]
 	}
 	return s
+}
+
+func retryLimit(o DischargeOpts) int {
+	if o.Race {
+		return 3 * o.TimeoutS
+	}
+	return o.TimeoutS
 }
